@@ -10,6 +10,7 @@ import Spydr.Verilog.WFStruct
 import Spydr.Verilog.RoundTripRenderB
 import Spydr.Verilog.RoundTripLexB
 import Spydr.Verilog.RoundTripStruct
+import Spydr.Verilog.RoundTripLeafF
 
 #print axioms Spydr.Verilog.getWires_spec
 #print axioms Spydr.Verilog.getWires_spec_single_all
@@ -113,3 +114,14 @@ import Spydr.Verilog.RoundTripStruct
 #print axioms Spydr.Verilog.Elab.lexR_of_pieces
 #print axioms Spydr.Verilog.Elab.c04_text_struct
 #print axioms Spydr.Verilog.Elab.exNet_struct
+#print axioms Spydr.Verilog.Elab.declStepL_run
+#print axioms Spydr.Verilog.Elab.hdrStepL_run
+#print axioms Spydr.Verilog.Elab.elabModule_leaf
+#print axioms Spydr.Verilog.Elab.elabDesign_bb
+#print axioms Spydr.Verilog.Elab.exBB_builds
+#print axioms Spydr.Verilog.Elab.foldLeaves_view
+#print axioms Spydr.Verilog.Elab.buildLeaf_iface
+#print axioms Spydr.Verilog.Elab.foldLeaves_iface
+#print axioms Spydr.Verilog.Elab.c04_view_bb
+#print axioms Spydr.Verilog.Elab.c04_ast_bb
+#print axioms Spydr.Verilog.Elab.exNetBB_frag
